@@ -319,10 +319,10 @@ Proof.
       replace ((A + 8 * dn) / 8) with (A / 8 + dn) in Ec0 by lia. exact Ec0.
 Qed.
 
-(* ------------------------------------------------------------------ for the next step (canonicalPtr, struct case):
-   Q_fill f -> Q_ptr (S f) : canonicalStructSize_spec gives the size, alloc_seg0 the fresh block at the end
-   (set_slots_end), Q_fill the block and the children; remaining: assembling enc's struct case (enc_cells_app_words,
-   size checks, ptr_word = struct_word) -- drafted, not closed in this round *)
+(* ------------------------------------------------------------------ canonicalPtr
+   Q_fill f -> Q_list f -> Q_ptr (S f): null; struct (canonicalStructSize_spec gives the size, alloc_seg0 the
+   fresh block at the end, Q_fill the block and the children, then enc's struct case); list = Q_list;
+   capability pointer: KErr, excluded by the hypothesis *)
 Lemma ptr_step f : Q_fill f -> Q_list f -> Q_ptr (S f).
 Proof.
   intros HF HL data cap rl p v w' cp Hi Hwf Hal Hcal D H. rewrite canonical_ptr_S in H.
